@@ -134,6 +134,21 @@ def instances(kind, cfg, n_inst, seed):
                 A = odl.MatrixOperator(M, domain=X, range=X)
                 A = A + 0 * A      # not recognised as self-adjoint by identity: the normal-equation branch; the symmetric branch needs `op.adjoint is op`
                 M_ = M
+                if t % 2 == 1:
+                    # an operator whose adjoint IS the operator (the symmetric branch of the power method), norm away from 1
+                    class Sym(odl.Operator):
+                        def __init__(self, mat):
+                            self.mat = mat
+                            super(Sym, self).__init__(domain=X, range=X, linear=True)
+
+                        def _call(self, x):
+                            return X.element(self.mat.dot(x.asarray()))
+
+                        @property
+                        def adjoint(self):
+                            return self
+                    M_ = M * float(rng.choice([0.05, 1.0, 4.0]))
+                    A = Sym(M_)
             else:
                 M_ = rng.standard_normal((k, n))
                 A = odl.MatrixOperator(M_, domain=X, range=Y)
@@ -162,7 +177,7 @@ def instances(kind, cfg, n_inst, seed):
                 elif kind == 'douglas_rachford_pd':
                     S.douglas_rachford_pd(x, half, [l1], [I_], niter, tau=1.0, sigma=[1.0], callback=cb)
                 elif kind == 'proximal_gradient':
-                    S.proximal_gradient(x, l1, half, gamma=0.7, niter=niter, callback=cb)
+                    S.proximal_gradient(x, l1, half, gamma=0.7, niter=niter, callback=cb, **({} if t % 3 == 0 else {'lam': 0.6 if t % 3 == 1 else (lambda it: 0.8)}))       # relaxation 1 (default), constant, callable
                 elif kind == 'accelerated_proximal_gradient':
                     S.accelerated_proximal_gradient(x, l1, half, gamma=0.7, niter=niter, callback=cb)
                 else:
